@@ -23,7 +23,7 @@ out = ["# Sensitivity: which check catches which change", "",
        "Every change below compiles and keeps the repository's own 55 tests green (unless marked).",
        "Each was applied to a scratch copy of /repo (never to /repo itself) and all 18 quick checks",
        "were run against it with the default seed (`tools/try_patch.sh`, `tools/import_seed.py`); for the",
-       "round-3 seeds (`*-R3`, except C11-R3 and C14-R3) only the check of the property aimed at was run.",
+       "round-3 and round-4 seeds (`*-R3`, `*-R4`, except C11-R3 and C14-R3) only the check of the property aimed at was run.",
        "A check \"detects\" a change when it prints a VIOLATION line (exit 1).", "",
        "## 1. Changes seeded by independent sub-agents", "",
        "Each sub-agent got only the text of one property and a scratch worktree; nothing from /verif.",
@@ -46,6 +46,10 @@ out += ["### Checks strengthened because a seeded change was missed at first", "
         "* **C13-B** (a `.key` file of <= 192 bytes is treated as new: truncated and re-headed before the other files are checked): all C13 maps were populated; the case list now contains every ordered type pair on a created-but-empty map, and every case leaves the map empty now and then. Detected by C13 afterwards.",
         "* **C17-R2** (value_length_stats / value_piece_size_stats return Err for a value >= 16 KiB in a slot >= 128 KiB): the C17 oracle treated an Err of a statistics call as inconclusive; it is a violation now (a diagnostic call that cannot report does not report the true structure). Detected by C17 afterwards.",
         "* **C13-R3** (round 3; `file_length < HEADER_SZ` instead of `is_zero()` as the new-file test: a non-empty file shorter than its header is re-initialised instead of refused): the C13 case list had no file shorter than its header; it now has one file or all three cut to 1..header-1 bytes with a foreign first signature byte, and correctly signed stubs opened as every other key type (580 more cases). Detected by C13 afterwards.",
+        "* **C13-R4** (round 4; an existing `.htx` is truncated and re-initialised without a signature check when `.key` and `.val` are both new): no case removed files; 50 table-file-only cases added (the `.key`/`.val` files removed or emptied, the table opened as another key type or with a foreign first byte; only the table is judged). Detected by C13 afterwards.",
+        "* **C02-R4** (round 4; item count written to the header only by flush/sync and by a `Drop` of the database object): needs the database handle dropped before the last map handle; `Step::DbDrop` existed but was never generated. The handle operations of every history now drop all database handles of a directory now and then while map handles stay alive. Detected by C02 afterwards (145 runs).",
+        "* **C09-R4** (round 4; key record rewritten in place, room check short by the size field): needs an exactly full key record whose value link gets wider (value moved past 128 KiB) without the record moving; the key-length sweep never moved a value. It now has a relocation phase. Detected by C09 afterwards (28 runs).",
+        "* **C10-R4** (round 4; offset -> decoded key cache read only by the iterators): needs a key record relocated between two traversals on one handle; C10 histories used tiny values only. Half of them now use the relocating value distributions and mixed key lengths. Detected by C10 afterwards (83 runs, four signatures).",
         "* Remarks of the sub-agents that changed the checks although nothing was missed: key records are sized from the width of the *raw* offsets (relocation thresholds at 16 KiB / 2 MiB, C08 generator and probes); values above 4096 bytes panic in debug-assertion builds (led to the `+dbg` pass of every check and to fix c008516).", "",
         "## 2. Hand-written mutants (/verif/mutants)", "",
         "`rev-*` = one of the `fix:` commits reverted (the defects of the pinned tree as mutants).", "",
